@@ -250,13 +250,15 @@ CLAIMED.update({
         text="Machine-checked proofs (Lean 4 kernel): the comment sanitiser (three steps of AddComment) leaves no comment opener or closer, keeps "
              "everything else in place, and EVERY comment text - any characters, delimiters, quotes, newlines - is skipped by a Coq-style lexer "
              "(nested comments, strings inside comments) exactly up to the delimiter goose printed, also as an indented block; a string literal "
-             "without quotes is read back as itself whatever it contains. Tied to the code by the regenerated text of the printer functions (rfl), "
+             "without quotes is read back as itself whatever it contains; for every precedence and associativity table a precedence-climbing "
+             "parser reads text printed with goose's needs_paren discipline back to the same tree (the seeded unparenthesised variant provably "
+             "re-associates). Tied to the code by the regenerated text of the printer functions (rfl), "
              "by comparing every printed doc comment with the model's prediction, and by translating hostile packages under all 8 flag "
              "combinations: every output lexes and parses, defines exactly the expected names, evaluates to Go's values, and every definition "
              "has the same parse tree under every flag combination; nesting is covered by deep random expressions evaluated on both sides.",
         ref="DESIGN.md §6 C05",
-        note="Trusted: GL/Lex.lean as Coq's lexical conventions (calibrated on the gold files). The parenthesisation of the printer is pinned "
-             "(regenerated text) and tested end to end, not proved (partial). Known finding: Coq keywords as identifiers.",
+        note="Trusted: GL/Lex.lean as Coq's lexical conventions (calibrated on the gold files). The parenthesisation theorem is over a model of the printer's discipline "
+             "(atoms, binary operators, ~, applications, if, deref); its tie to coq.go is the regenerated text plus the end-to-end evaluation. Known finding: Coq keywords as identifiers.",
         tech="Lean 4 proofs (sanitiser and lexer) + regenerated printer facts + hostile-text correspondence against the real binary"),
     "C13": dict(
         text="Machine-checked proofs (Lean 4 kernel) over the system-call model of DirFs.AtomicCreate with arbitrary disturbance (crash after "
